@@ -712,3 +712,71 @@ pub mod watch {
         std::process::exit(if is_c09 { 1 } else { 2 });
     }
 }
+
+// ---------------------------------------------------------------- CLI helper
+
+/// run the built CLI in batch mode and return the bytes of every file it wrote
+pub fn cli_batch(extra: &[String], samples: usize, env: &[(&str, &str)]) -> Result<Vec<Vec<u8>>, String> {
+    use std::sync::atomic::{AtomicUsize, Ordering};
+    static N: AtomicUsize = AtomicUsize::new(0);
+    let cli = std::env::var("PFV_CLI").map_err(|_| "PFV_CLI not set".to_string())?;
+    let d = std::env::temp_dir().join(format!("pfv-cli-{}-{}", std::process::id(), N.fetch_add(1, Ordering::Relaxed)));
+    let _ = std::fs::remove_dir_all(&d);
+    let mut cmd = std::process::Command::new(&cli);
+    cmd.arg("--dir").arg(&d).arg("--samples").arg(samples.to_string()).args(extra);
+    for (k, v) in env {
+        cmd.env(k, v);
+    }
+    let out = cmd.output().map_err(|e| format!("spawn: {}", e))?;
+    let mut files = Vec::new();
+    if let Ok(rd) = std::fs::read_dir(&d) {
+        for e in rd.flatten() {
+            files.push(std::fs::read(e.path()).unwrap_or_default());
+        }
+    }
+    let _ = std::fs::remove_dir_all(&d);
+    if !out.status.success() {
+        return Err(format!("exit {:?}: {}", out.status.code(), String::from_utf8_lossy(&out.stderr).trim()));
+    }
+    Ok(files)
+}
+
+/// run scripts/action-run.sh with the built CLI first on PATH; returns the files of INPUT_OUTPUT_DIR
+pub fn action_batch(inputs: &[(&str, String)], samples: usize) -> Result<Vec<Vec<u8>>, String> {
+    use std::sync::atomic::{AtomicUsize, Ordering};
+    static N: AtomicUsize = AtomicUsize::new(0);
+    let cli = std::env::var("PFV_CLI").map_err(|_| "PFV_CLI not set".to_string())?;
+    let repo = std::env::var("VERIF_REPO").unwrap_or_else(|_| "/repo".to_string());
+    let base = std::env::temp_dir().join(format!("pfv-act-{}-{}", std::process::id(), N.fetch_add(1, Ordering::Relaxed)));
+    let _ = std::fs::remove_dir_all(&base);
+    let bin = base.join("bin");
+    std::fs::create_dir_all(&bin).map_err(|e| e.to_string())?;
+    std::os::unix::fs::symlink(&cli, bin.join("pickle-fuzzer")).map_err(|e| e.to_string())?;
+    let d = base.join("out");
+    let mut cmd = std::process::Command::new("bash");
+    cmd.arg(format!("{}/scripts/action-run.sh", repo));
+    for (k, _) in std::env::vars() {
+        if k.starts_with("INPUT_") {
+            cmd.env_remove(k);
+        }
+    }
+    let path = format!("{}:{}", bin.display(), std::env::var("PATH").unwrap_or_default());
+    cmd.env("PATH", path)
+        .env("INPUT_OUTPUT_DIR", &d)
+        .env("INPUT_SAMPLES", samples.to_string());
+    for (k, v) in inputs {
+        cmd.env(k, v);
+    }
+    let out = cmd.output().map_err(|e| format!("spawn: {}", e))?;
+    let mut files = Vec::new();
+    if let Ok(rd) = std::fs::read_dir(&d) {
+        for e in rd.flatten() {
+            files.push(std::fs::read(e.path()).unwrap_or_default());
+        }
+    }
+    let _ = std::fs::remove_dir_all(&base);
+    if !out.status.success() {
+        return Err(format!("exit {:?}: {}", out.status.code(), String::from_utf8_lossy(&out.stderr).trim()));
+    }
+    Ok(files)
+}
